@@ -34,6 +34,9 @@ def t_select(chk, ix):
     # the expression itself means what it says (shared with C07 / C08)
     rules_tags.check_v1_end_to_end(chk, ix)
     rules_tags.check_v2_renderings(chk, ix, chk.tier)
+    # 'a scenario without steps' is decided by testing sequences, never iterator objects (always true)
+    from .. import rules_generic
+    rules_generic.check_iterator_truth(chk, ix)
 
 
 def t_rollup(chk, ix):
@@ -47,5 +50,5 @@ def t_rollup(chk, ix):
 
 def run(chk, ix, tier):
     run_parallel(chk, [(t_select, ()), (t_rollup, ()), (T.t_scenario, (("G6", "H2"),))] + T.container_tasks(("R4", "H2")))
-    for r, n in (("G1", 8), ("G2", 6), ("G4", 16), ("G5", 4), ("G6", 1), ("G7", 4), ("G8", 5), ("B9", 3), ("U1", 900), ("T4", 200)):
+    for r, n in (("G1", 8), ("G2", 6), ("G4", 16), ("G5", 4), ("G6", 1), ("G7", 4), ("G8", 5), ("B9", 3), ("U1", 900), ("T4", 200), ("RF6", 30)):
         chk.require_instances(r, n)
